@@ -74,7 +74,8 @@ fn main() {
     engine::install_quiet_panic_hook();
     let budget = match tier {
         Tier::Quick => p.watchdog_quick_s,
-        Tier::Thorough => p.watchdog_thorough_s,
+        // thorough tiers may include a cold build of the fuzz targets
+        Tier::Thorough => p.watchdog_thorough_s.max(4 * 3600),
     };
     engine::watchdog(budget, p.id);
     let ctx = Ctx::new(p.id, p.level, tier, seed, replay, strict);
